@@ -150,3 +150,22 @@ def render(atoms: List[Atom], package: str) -> str:
         if a.service:
             out.append(a.service)
     return "\n".join(out) + "\n"
+
+
+# A multi-file, multi-package program: several files per package (enums only / messages /
+# services), a package without messages, a descendant package referring upwards, >1 service,
+# >3 methods, optional message from an ancestor package.
+MULTI_FILES = {
+    "p/enums.proto": 'syntax = "proto3";\npackage p;\n// enums only\nenum E1 { E1_ZERO = 0; E1_ONE = 1; }\nenum E2 { E2_ZERO = 0; E2_NEG = -1; }\n',
+    "p/msgs.proto": ('syntax = "proto3";\npackage p;\nimport "p/enums.proto";\nimport "p/other.proto";\nimport "q/only_enum.proto";\n'
+                     'message M1 { E1 e = 1; M2 m2 = 2; q.QEnum qe = 3; repeated E2 e2s = 4; map<string, M2> by = 5;\n'
+                     '  oneof pick { M2 pm = 6; q.QEnum pq = 7; } message In { E2 x = 1; } In inner = 8; }\n'),
+    "p/other.proto": ('syntax = "proto3";\npackage p;\nmessage M2 { int32 a = 1; }\n'
+                      'service S1 { rpc A (M2) returns (M2); }\n'
+                      'service S2 { rpc B (M2) returns (stream M2); rpc C (stream M2) returns (M2); rpc D (M2) returns (M2); rpc E (stream M2) returns (stream M2); }\n'),
+    "q/only_enum.proto": 'syntax = "proto3";\npackage q;\nenum QEnum { Q_ZERO = 0; Q_ONE = 1; }\n',
+    "p/r/nested.proto": ('syntax = "proto3";\npackage p.r;\nimport "p/other.proto";\nimport "p/msgs.proto";\nimport "p/enums.proto";\n'
+                         'message R { p.M2 up = 1; optional p.M1 opt_up = 2; p.M1.In deep = 3; optional p.E2 oe = 4; map<int32, p.E1> em = 5; }\n'
+                         'service S3 { rpc Up (p.M2) returns (p.M1); }\n'),
+}
+MULTI_PACKAGES = ["p", "q", "p.r"]
